@@ -5,6 +5,16 @@ from common import Rng
 
 import pytrs
 
+
+def safely(rep, what, f, *a):
+    """run one oracle check; an exception escaping the library is itself a failing input for the observables"""
+    try:
+        return f(rep, *a)
+    except Exception as e:  # noqa
+        rep.violation('failing-input', {'check': what, 'args': [str(x)[:300] for x in a], 'why': f'raised {type(e).__name__}: {e}'})
+        return None
+
+
 RULE = ("lists of 0-10 TRS / Tract elements (valid, error, undefined and partially undefined Twp/Rge/Sec; ties; mixed N/S, "
         "E/W) x key strings of 1-3 parts x sub-method x .rev/.reverse x spacing / case x reverse flag; non-trivial = list "
         "of >= 2 elements with >= 2 distinct Twp/Rge/Sec; distinct by (list, key)")
@@ -103,7 +113,7 @@ def run(ctx):
         specs = elems.rand_specs(r)
         key = rand_key(r)
         reverse = r.chance(1, 4)
-        check(rep, specs, key, reverse)
+        safely(rep, 'custom_sort', check, specs, key, reverse)
         rep.count()
         if len(specs) >= 2 and len(set(s[2] if s[0] == 't' else s[1] for s in specs)) >= 2:
             rep.nontrivial((tuple(specs), key, reverse))
